@@ -102,7 +102,7 @@ func TestVerif_C07_Reader(t *testing.T) {
 	defer R.Finish()
 	base := filepath.Join(c06Base(), "c07")
 	defer os.RemoveAll(c06Base())
-	R.Rule = "reader level: count vector (entries of the address in each of 3 epochs, 0..4 each: all 125) x non-empty subset of loaded epochs x limit in 1..total+1 x before in history+{none,unknown} x until likewise, against slice arithmetic on the concatenated newest-first history; slot variant: every (before, until) pair over the distinct slots +-1; handler level: JSON response order under every iteration order of the per-epoch result map; non-trivial = query whose expected result is a proper, non-empty sub-run of the history"
+	R.Rule = "reader level: count vector (entries of the address in each of 3 epochs, 0..4 each: all 125) x non-empty subset of loaded epochs x limit in 1..total+1 x before in history+{none,unknown} x until likewise, against slice arithmetic on the concatenated newest-first history; slot variant: every (before, until) pair over the distinct slots +-1, 0, 2^63, 2^63+5 and 2^64-1; handler level: JSON response order under every iteration order of the per-epoch result map; non-trivial = query whose expected result is a proper, non-empty sub-run of the history"
 	// one index per (epoch, count)
 	var dirs [c07Layouts][c07Epochs][c07MaxCount + 1]string
 	for l := 0; l < c07Layouts; l++ {
@@ -286,6 +286,7 @@ func TestVerif_C07_Reader(t *testing.T) {
 				slotSet[s-1], slotSet[s], slotSet[s+1] = true, true, true
 			}
 			slotSet[0] = true
+			slotSet[1<<63], slotSet[1<<63+5], slotSet[^uint64(0)] = true, true, true // bounds beyond the signed range
 			var slots []uint64
 			for s := range slotSet {
 				slots = append(slots, s)
